@@ -127,7 +127,12 @@ func (rt *verifRT) cur() map[string]any {
 
 func verifErrResp(req *http.Request, status int, code string) *http.Response {
 	body := fmt.Sprintf(`{"errors":[{"code":%q,"message":"scripted"}]}`, code)
-	return &http.Response{StatusCode: status, Status: fmt.Sprint(status), Header: http.Header{}, Body: io.NopCloser(strings.NewReader(body)),
+	hdr := http.Header{}
+	if strings.HasPrefix(code, "LOC") {
+		// a redirect that names a target; the target answers 404 to whatever follows it
+		hdr.Set("Location", "http://redirect.test/v2/x/y/redirected/"+code)
+	}
+	return &http.Response{StatusCode: status, Status: fmt.Sprint(status), Header: hdr, Body: io.NopCloser(strings.NewReader(body)),
 		ContentLength: int64(len(body)), Request: req, Proto: "HTTP/1.1", ProtoMajor: 1, ProtoMinor: 1}
 }
 
@@ -304,7 +309,8 @@ func (rt *verifRT) push(req *http.Request, kind, ref string, parts []string) (*h
 			status = int(e["status"].(float64))
 		}
 		if status/100 != 2 {
-			return verifErrResp(req, status, "POST"), nil
+			code, _ := e["code"].(string)
+			return verifErrResp(req, status, code+"POST"), nil
 		}
 		hdr := http.Header{}
 		if loc, _ := e["location"].(bool); e == nil || loc {
@@ -322,7 +328,8 @@ func (rt *verifRT) push(req *http.Request, kind, ref string, parts []string) (*h
 		rt.log = append(rt.log, fmt.Sprintf("put %s %d", lh, status))
 		rt.mu.Unlock()
 		if status/100 != 2 {
-			return verifErrResp(req, status, "PUT"), nil
+			code, _ := e["code"].(string)
+			return verifErrResp(req, status, code+"PUT"), nil
 		}
 		return ok(nil), nil
 	case req.Method == "PUT" && kind == "manifests":
@@ -334,7 +341,8 @@ func (rt *verifRT) push(req *http.Request, kind, ref string, parts []string) (*h
 		rt.log = append(rt.log, fmt.Sprintf("manifest-put %d", status))
 		rt.mu.Unlock()
 		if status/100 != 2 {
-			return verifErrResp(req, status, "MANIFEST"), nil
+			code, _ := ps.man["code"].(string)
+			return verifErrResp(req, status, code+"MANIFEST"), nil
 		}
 		return ok(nil), nil
 	}
@@ -454,6 +462,12 @@ func verifPull(c map[string]any) any {
 		return map[string]any{"harness_error": err.Error()}
 	}
 	defer os.RemoveAll(dir)
+	if n, ok := c["dirname"].(string); ok && n != "" {
+		dir = filepath.Join(dir, n)
+		if err := os.MkdirAll(dir, 0o777); err != nil {
+			return map[string]any{"harness_error": err.Error()}
+		}
+	}
 	cache, err := blob.Open(dir)
 	if err != nil {
 		return map[string]any{"harness_error": err.Error()}
@@ -606,6 +620,17 @@ func verifPull(c map[string]any) any {
 
 	var res []any
 	for i := range attempts {
+		if a, _ := attempts[i].(map[string]any); a != nil {
+			if ro, _ := a["reopen"].(bool); ro {
+				// the process was restarted between the attempts: a new DiskCache on the same directory
+				nc, err := blob.Open(dir)
+				if err != nil {
+					return map[string]any{"harness_error": "reopen: " + err.Error()}
+				}
+				cache = nc
+				rc.Cache = nc
+			}
+		}
 		ctx, cancel := context.WithCancel(context.Background())
 		rt.cancel = cancel
 		var stop chan struct{}
